@@ -370,14 +370,16 @@ class ThreadPoolServer(Server):
             # the connection has already been unregistered
             pass
 
-    def _drop_connection(self, fd):
+    def _drop_connection(self, fd, conn=None):
         '''removes a connection by closing it and removing it from internal structs'''
-        conn = None
-
-        # cleanup fd_to_conn dictionnary
+        # cleanup fd_to_conn dictionnary. Descriptor numbers are reused: if the caller names the connection
+        # it was serving and that one has closed its socket already, `fd` may by now belong to a newly
+        # accepted client, whose entry must be left alone
         try:
-            conn = self.fd_to_conn[fd]
-            del self.fd_to_conn[fd]
+            if conn is None:
+                conn = self.fd_to_conn[fd]
+            if self.fd_to_conn[fd] is conn:
+                del self.fd_to_conn[fd]
         except KeyError:
             # the active connection has already been removed
             pass
@@ -428,15 +430,17 @@ class ThreadPoolServer(Server):
     def _serve_requests(self, fd):
         '''Serves requests from the given connection and puts it back to the appropriate queue'''
         # serve a maximum of RequestBatchSize requests for this connection
+        conn = None
         for _ in range(self.request_batch_size):
             try:
-                if not self.fd_to_conn[fd].poll():  # note that poll serves the request
+                conn = self.fd_to_conn[fd]
+                if not conn.poll():  # note that poll serves the request
                     # we could not find a request, so we put this connection back to the inactive set
                     self._add_inactive_connection(fd)
                     return
             except EOFError:
                 # the connection has been closed by the remote end. Close it on our side and return
-                self._drop_connection(fd)
+                self._drop_connection(fd, conn)
                 return
             except Exception:
                 # put back the connection to active queue in doubt and raise the exception to the upper level
